@@ -106,7 +106,8 @@ func writeDoc(d *logical.Doc, format string, neutral map[string]bool, w wopts) [
 	switch format {
 	case "docx":
 		return ooxml.WriteDocx(d, ooxml.DocxOptions{Neutral: neutral, Store: w.store, Pretty: w.pretty,
-			BodyStyle: []string{"", "Normal", "BodyText"}[w.bodyStyle%3], OutlineKeepsBodyStyle: (w.bodyStyle/3)%2 == 1})
+			BodyStyle: []string{"", "Normal", "BodyText"}[w.bodyStyle%3], OutlineKeepsBodyStyle: (w.bodyStyle/3)%2 == 1,
+			NSPrefix: []string{"", "", "", "ns0", "wml"}[(w.bodyStyle/6)%5]})
 	default:
 		return odf.WriteODT(d, odf.Options{Neutral: neutral, Pretty: w.pretty, ColumnsRepeated: w.colsRepeated,
 			BodyStyle: []string{"", "Standard", "Text_20_body"}[w.bodyStyle%3]})
@@ -580,7 +581,7 @@ func Run(c *fw.Ctx) {
 		tk := fw.NewTokens(c.Rand("doc", i, "tokens"))
 		d := logical.Gen(r, tk, profile(format, biases[(i/4)%len(biases)], i%40 == 39))
 		wr := c.Rand("doc", i, "writer")
-		w := wopts{pretty: wr.Intn(2) == 0, store: wr.Intn(4) == 0, colsRepeated: wr.Intn(2) == 0, bodyStyle: wr.Intn(6)}
+		w := wopts{pretty: wr.Intn(2) == 0, store: wr.Intn(4) == 0, colsRepeated: wr.Intn(2) == 0, bodyStyle: wr.Intn(30)}
 		runCase(c, id, d, format, clean, w)
 	})
 
